@@ -211,7 +211,10 @@ package jsonschema
 //@   loopinv shaped: shaped(instance)
 //@   loopinv stacklen: len(st.stack) == len(stk0) + 1
 //@   loopinv stackelems: new(st.stack) && (forall i int {st.stack[i]} :: 0 <= i && i < len(stk0) ==> st.stack[i] == old(stk0[i])) && st.stack[len(stk0)] == schema
+//@   loopinv stackrs: new(st.stack) && (forall i int {st.stack[i]} :: 0 <= i && i < len(st.stack) ==> inRS(rs, st.stack[i]))
 //@   loopinv anns: annsLocal(anns)
+//@   loop "range instance.Len()#2"
+//@     invariant hashes: new(hashes) && (forall h int, k int :: has(hashes, h) ==> newOrNil(hashes[h]) && allocated(hashes[h]) && (0 <= k && k < len(hashes[h]) ==> 0 <= hashes[h][k] && hashes[h][k] < rvlen(instance)))
 
 //@ contract property(v, name)
 //@   requires kind: kind(v) == 21 || kind(v) == 25
